@@ -103,6 +103,10 @@ func genC20(r *rng, thorough bool) {
 		nt := 1 + r.intn(5)
 		emit(nt, r.intn(12), func(int) int { return r.intn(nt) })
 	}
+	// a target evicted more than once: three and four full sweeps just beyond the capacity
+	emit(257, 3*257, func(i int) int { return i % 257 })
+	emit(258, 4*258+5, func(i int) int { return i % 258 })
+	emit(300, 1500, func(int) int { return r.intn(300) })
 	// around and beyond the handle-cache capacity (256): sweeps, revisits after long gaps
 	for i := 0; i < big; i++ {
 		nt := r.pick([]string{"255", "256", "257", "258", "300"})
@@ -127,8 +131,8 @@ func genC20(r *rng, thorough bool) {
 				}
 				return 1 + (i/2)%(k-1)
 			})
-		case 3: // random over many targets
-			emit(k, 400, func(int) int { return r.intn(k) })
+		case 3: // random over many targets, long enough for repeated evictions
+			emit(k, 400+r.intn(1200), func(int) int { return r.intn(k) })
 		}
 	}
 }
